@@ -40,10 +40,11 @@ RULE = ("cases: retry = RetryPolicy.Wrap (+ breaker wrapper closed / forced open
         "40-100ms in front of a cancellation, 1ns with factor<1/2 for the zero-wait select race, maxAttempts 0); "
         "pool = Proxy with one pool (retry, timeout 60-80ms, breaker with slowCallDurationThreshold 1us..5ms or default - window totals read after EVERY request, failureCodes) serving 1-5 requests with a per-attempt scripted "
         "transport (status / network error / block until context done / panic / header in time then body breaks, stalls past the deadline or "
-        "exceeds serverMaxBodySize; stream bodies of declared and unknown length consumed by every attempt; client cancellation); "
+        "exceeds serverMaxBodySize, successful answers whose declared length is exactly serverMaxBodySize / one byte less; after each observation the response "
+        "object the client got may be rewritten (status, header, payload) as a downstream filter would, optionally after another proxy failed with 503/499/408/500 and had its responses rewritten; stream bodies of declared and unknown length consumed by every attempt; client cancellation); "
         "non-trivial = validated policy; classes (retry) add: >1 attempt(+1) success after failure(+2) cancel(+4) exhausted(+8) breaker(+16) "
         "exponential(+32) panic(+64) attempt after cancel in the zero-wait race(+128); (pool): >1 attempt(+1) stream(+2) timeout(+4) breaker(+8) "
-        "cancel(+16) failureCode(+32) success after retry(+64) panic(+128) internalError from a body fault(+256) unknown-length stream(+512); distinct = distinct (group, input) hashes among non-trivial cases")
+        "cancel(+16) failureCode(+32) success after retry(+64) panic(+128) internalError from a body fault(+256) unknown-length stream(+512) an earlier response (this proxy or another one) was rewritten by a downstream filter(+1024); distinct = distinct (group, input) hashes among non-trivial cases")
 TRUSTED_BASE = [
     "model coq/model/Retry.v is hand-written; tied to pkg/resilience and pkg/filters/proxy by the per-run correspondence (sampled)",
     "float64 back-off arithmetic modelled as exact rationals (harness uses dyadic factors and small bases so that float64 is exact)",
@@ -98,13 +99,14 @@ def encode(c):
         for rq, ou in zip(reqs, outs):
             qs.append(Rec(q_stream=B(rq["stream"]),
                           q_script=L([T(Z(a), Z(b)) for a, b in rq.get("script") or []]),
-                          q_cancel=Z(rq["cancel"]), q_clen=Z(rq.get("clen", 0)),
+                          q_cancel=Z(rq["cancel"]), q_clen=Z(rq.get("clen", 0)), q_mutate=B(rq.get("mutate", False)),
                           q_calls=Z(ou["calls"]), q_res=Z(ou["res"]), q_status=Z(ou["status"]),
-                          q_from=Z(ou.get("from", -1)), q_plen=Z(ou.get("plen", 0)), q_bodies=Z(ou.get("bodies", 0)),
+                          q_from=Z(ou.get("from", -1)), q_plen=Z(ou.get("plen", 0)), q_bodies=Z(ou.get("bodies", 0)), q_hdrs=Z(ou.get("hdrs", 0)),
                           q_cbt=Z(ou.get("cbt", -1)), q_cbf=Z(ou.get("cbf", -1)),
                           q_gaps=L([Z(x) for x in ou.get("gaps") or []])))
         return Rec(k_retry=B(i["retry"]), k_pol=_pol(i), k_timeout=Z(i["timeout"]), k_cb=B(i["cb"]),
-                   k_fcodes=L([Z(x) for x in i.get("fcodes") or []]), k_reqs=L(qs),
+                   k_fcodes=L([Z(x) for x in i.get("fcodes") or []]), k_smax=Z(i.get("smax", 0)),
+                   k_prelude=B(i.get("prelude", False)), k_reqs=L(qs),
                    k_cbt=Z(o["cbt"]), k_cbf=Z(o["cbf"]))
     raise ValueError(c["grp"])
 
